@@ -37,6 +37,12 @@ CHECKS = {
  "C20": ("conservation runtime monitor over the default prometheus registry (pre-burst vs quiescent values, non-negativity of every sample)",
          "Bursts of connection histories of 13 kinds (completed, abandoned, rejected, refused, shutdown) are run sequentially and concurrently against one server per burst; gauges are sampled throughout and compared at quiescence.",
          "gauges are process-global: one server per burst, one process per batch", "3/C20"),
+ "C07": ("counting runtime monitor in lock-step on the reference server (packets written between consecutive blocking reads, handler entries at a wrapping Handler, header/sequence/key-mismatch model)",
+         "Generated multiplexed sessions over every handler path and user kind are played against the reference server; each accepted request must produce exactly one reply packet (none for 255) and keep the connection reading; each rejected one no handler, at most one packet and a close. Component pass drives stringy and bcrypt handlers directly.",
+         "open sessions are read from the wrapping Response (continuation registered) at the API boundary; unjudged key-mismatch class may go either way but completely", "3/C07"),
+ "C14": ("crash monitor: hostile generated streams against the reference server in worker processes, panic-recording Handler wrapper, parent-side death localisation, control connections before/after; thorough adds -race/checkptr",
+         "Random bytes, mutated packets, every body in every handler state, truncated/oversize packets, odd-user recipes and proxy junk are sent over 1-64 connections under rich and odd configurations; any recorded or process-level panic and any wrong control answer is a violation.",
+         "streams bounded to 64 KiB; SPAN/DNS/syslog components are outside the reference wiring", "3/C14"),
 }
 
 NA_REASON = "check not built yet in this round (work in progress; see DESIGN.md section 3 for the planned monitor)"
